@@ -673,7 +673,7 @@ func init() {
 			valueError("reflect.Append", s.kind())
 		}
 		et := s.t.Underlying().(*types.Slice).Elem()
-		out := s.v.([]value)
+		var add []value
 		for _, x := range a[1].([]value) {
 			xv := rvArg(x)
 			if xv.t == nil {
@@ -686,9 +686,9 @@ func init() {
 			if _, isI := et.Underlying().(*types.Interface); isI && xv.kind() != reflect.Interface {
 				nv = iface{t: xv.t, v: nv}
 			}
-			out = append(out, nv)
+			add = append(add, nv)
 		}
-		return reflectValue{t: s.t, v: out}
+		return reflectValue{t: s.t, v: appendLikeGo(s.v.([]value), add, sizeofType(et), false)}
 	})
 	reg("reflect.AppendSlice", func(fr *frame, a []value) value {
 		s, t := rvArg(a[0]), rvArg(a[1])
@@ -702,11 +702,7 @@ func init() {
 		if !types.Identical(se, te) {
 			reflectPanic("reflect.AppendSlice: " + reflectTypeString(se) + " != " + reflectTypeString(te))
 		}
-		out := s.v.([]value)
-		for _, e := range t.v.([]value) {
-			out = append(out, copyVal(e))
-		}
-		return reflectValue{t: s.t, v: out}
+		return reflectValue{t: s.t, v: appendLikeGo(s.v.([]value), t.v.([]value), sizeofType(se), true)}
 	})
 	reg("reflect.MakeSlice", func(fr *frame, a []value) value {
 		t := rtypeArg(a[0])
